@@ -245,6 +245,19 @@ class Replayer:
             stmap = {c.name: CMP.pdt_family(c.dtype()) for c in tbl}
             ex = [CMP.pl_family(t) for t in df.dtypes]
             wantmap = dict(zip(obs["names"], obs["tys"]))
+            from pydiverse.transform._internal.tree import types as _types
+
+            for c in tbl:
+                # a CONCRETE static type (sized int / float, bool, string, date ...) must be exactly the exported type on Polars
+                d0 = _types.without_const(c.dtype())
+                if bk == "polars" and c.name in df.columns and _types.is_subtype(d0) and type(d0).__name__ not in ("NullType", "Decimal"):
+                    try:
+                        want_pl = d0.to_polars()
+                    except Exception:  # noqa: BLE001
+                        continue
+                    got_pl = df.schema[c.name]
+                    if want_pl != got_pl and not (str(got_pl) == "Null" and all(v is None for v in df[c.name].to_list())):
+                        self.fail(node, beh, k, bk, "dtype-export", f"column {c.name}: static type {d0} ({want_pl}), exported {got_pl}")
             for n, e_ in zip(names, ex):
                 w = wantmap.get(n)
                 s_ = stmap.get(n)
@@ -388,6 +401,7 @@ class Replayer:
                         bad("Scalar", f"{sc!r} vs {rows}")
                 except Exception as e:  # noqa: BLE001
                     bad("Scalar", f"raised {exc_class(e)}: {e}")
+        self.check_expr_export(node, beh, k, bk, tbl, df, obs)
         # ColExpr.export of every visible column (a separate path: get_expr_as_table)
         if obs["part"] == [] and names:
             try:
@@ -401,6 +415,24 @@ class Replayer:
                         bad("ColExpr.export", f"column {c.name}: {col_rows[:4]} vs {want[:4]}")
             except Exception as e:  # noqa: BLE001
                 bad("ColExpr.export", f"raised {exc_class(e)}: {e}")
+
+    def check_expr_export(self, node, beh, k, bk, tbl, df, obs):
+        """C20: ColExpr.export of an EXPRESSION over the table (get_expr_as_table is a separate path)"""
+        R = self.R
+        names = list(df.columns)
+        if obs["part"] or not names:
+            return
+        for idx, (n, ty) in enumerate(zip(obs["names"], obs["tys"])):
+            if ty == "int" and n in names:
+                try:
+                    ser = (tbl[n] + 1).export(R.pdt.Polars())
+                    got = [[v] for v in ser.to_list()]
+                    want = [[None if r[names.index(n)] is None else r[names.index(n)] + 1] for r in CMP.frame_rows(df)]
+                    if not self.rows_equal(want, got, obs, bk, single=idx):
+                        self.fail(node, beh, k, bk, "target", f"ColExpr.export of ({n} + 1): {got[:4]} vs {want[:4]}")
+                except Exception as e:  # noqa: BLE001
+                    self.fail(node, beh, k, bk, "target", f"ColExpr.export of ({n} + 1) raised {exc_class(e)}: {e}")
+                return
 
     def order_cls(self, obs, bk, n):
         """class vector that licenses sequence comparison between two exports of the SAME table on one backend"""
